@@ -51,7 +51,7 @@ _hist_prop("C04", ["CC.Props.C04"],
 _hist_prop("C05", ["CC.Props.C05"],
     "Lean theorems: prune keeps exactly the newest secret of a pruned right and leaves others untouched; every secret of a key refreshed with keep is a current master secret of that right, rights gone from the master key are dropped; without keep exactly the newest secret; a key holding only master secrets cannot open an encapsulation made under removed secrets. Correspondence: rekey/prune/delete/update/refresh histories, chain contents and decaps matrices compared")
 _hist_prop("C06", ["CC.Props.C06"],
-    "Lean theorems: rekey and prune never change the activation flag of the newest secret; the public key publishes a right only if its newest secret is activated; a deactivated right has no entry in any derived public key; encapsulation fails when a targeted right is unpublished; update_msk sets the flag from the structure. Correspondence: histories with disable followed by update/rekey/prune/mpk re-derivation/serialisation round-trips, encaps ok/err under every public key compared")
+    "Lean theorems: rekey and prune never change the activation flag of the newest secret; the public key publishes a right only if its newest secret is activated; a deactivated right has no entry in any derived public key; encapsulation fails when a targeted right is unpublished; update_msk sets the flag from the structure; over every history: a disabled identifier stays disabled through every structure edit (no enable operation, identifiers never reissued), a successful update_msk deactivates every right containing it, no later operation re-activates one, so in any world reachable after disable + update encapsulation fails for every target set containing such a right (disabled_never_encryptable). Correspondence: histories with disable followed by update/rekey/prune/mpk re-derivation/serialisation round-trips, encaps ok/err under every public key compared")
 _hist_prop("C09", ["CC.Props.C09"],
     "Lean theorems characterising, for all states and arguments, exactly when each structure edit, rekey, update_msk and key generation fail (iff statements). Correspondence: histories with 35% malformed arguments (unknown/duplicate/stale names, same-dimension clauses, rollbacks of the master key); ok/err of every call compared with the model")
 _hist_prop("C10", ["CC.Props.C10"],
